@@ -189,6 +189,7 @@ type timerState struct {
 	period   *Term
 	fired    bool
 	polledAt *Term
+	fires    int
 }
 
 func isNilValue(v Value) bool {
